@@ -7,11 +7,14 @@ package main
 //
 // Case kinds
 //   c05.encode (n signed hashmapE ((key value)...))   Put in that order, Marshal -> cell tree | 'err
+//   c05.raw    (n signed hashmapE ((key value)...))   NewHashmap(E)(keys, values) with the slices in exactly
+//                                                     that order (duplicates allowed), Marshal -> cell | 'err
 //   c05.decode (n hashmapE cell)                      Unmarshal, Items()         -> ((key value)...) | 'err
 //   c05.cells  (n tree)                               spec serialisation of a Patricia tree with a label
 //                                                     form per edge (independent encoder below)      -> cell | 'err
 //   c05.ops    (n signed cell (op...))                Unmarshal HashmapE, Get/Put, Items, re-Marshal
-//   c05.addr   (((wc addr value)...))                 AddressWithWorkchain keys (finding F19; witness only)
+//   c05.addr   (((wc addr value)...))                 AddressWithWorkchain keys given as values: Put, Marshal,
+//                                                     Unmarshal -> (cell ((wc addr value)...)) | 'err
 // A cell tree is (b<bits> (child ...)).  Keys are printed as their bits,
 // values are tlb.Uint32.
 
@@ -42,6 +45,7 @@ type c05Impl struct {
 	n      int
 	signed bool
 	encode func(e bool, kvs []c05KV) (*boc.Cell, error)
+	raw    func(e bool, kvs []c05KV) (*boc.Cell, error)
 	decode func(e bool, c *boc.Cell) ([]c05KV, error)
 	ops    func(c *boc.Cell, ops []sx.V) sx.V
 }
@@ -135,6 +139,23 @@ func c05Reg[K c05Key](signed bool) {
 		}
 		return c, tlb.Marshal(c, h)
 	}
+	im.raw = func(e bool, kvs []c05KV) (*boc.Cell, error) {
+		keys := make([]K, 0, len(kvs))
+		values := make([]tlb.Uint32, 0, len(kvs))
+		for _, kv := range kvs {
+			k, err := c05KeyFromBits[K](kv.k)
+			if err != nil {
+				return nil, err
+			}
+			keys = append(keys, k)
+			values = append(values, tlb.Uint32(kv.v))
+		}
+		c := boc.NewCell()
+		if e {
+			return c, tlb.Marshal(c, tlb.NewHashmapE(keys, values))
+		}
+		return c, tlb.Marshal(c, tlb.NewHashmap(keys, values))
+	}
 	im.decode = func(e bool, c *boc.Cell) ([]c05KV, error) {
 		if e {
 			var h tlb.HashmapE[K, tlb.Uint32]
@@ -227,7 +248,9 @@ func init() {
 	c05Reg[tlb.Bits96](false)
 	c05Reg[tlb.Bits256](false)
 	c05Reg[tlb.Bits512](false)
+	c05Reg[tlb.AddressWithWorkchain](false) // 288 bits: int32 workchain (sign-extended int8) + 32 bytes
 	execs["c05.encode"] = execC05Encode
+	execs["c05.raw"] = execC05Raw
 	execs["c05.decode"] = execC05Decode
 	execs["c05.cells"] = execC05Cells
 	execs["c05.ops"] = execC05Ops
@@ -317,6 +340,18 @@ func execC05Encode(in sx.V) sx.V {
 		return sx.L(sx.A("harness-error"), sx.A("keytype"))
 	}
 	c, err := im.encode(in.List[2].Bool, c05KVsOf(in.List[3]))
+	if err != nil {
+		return sx.A("err")
+	}
+	return c05CellSx(c)
+}
+
+func execC05Raw(in sx.V) sx.V {
+	im, ok := c05Impls[c05Name(in.List[0].I(), in.List[1].Bool)]
+	if !ok {
+		return sx.L(sx.A("harness-error"), sx.A("keytype"))
+	}
+	c, err := im.raw(in.List[2].Bool, c05KVsOf(in.List[3]))
 	if err != nil {
 		return sx.A("err")
 	}
